@@ -597,6 +597,10 @@ impl Scenario for C03TokenSoups {
     fn name(&self) -> &'static str {
         "token_soups"
     }
+    fn fresh_thread(&self) -> bool {
+        // short inputs, no dependence on hash order: run in the worker thread (thread creation would dominate)
+        false
+    }
     fn run(&self, cx: &mut Cx) -> Result<(), Violation> {
         let fs = SimFs::new("/work", cx.tape.draw_u64());
         fs.install();
